@@ -27,7 +27,7 @@ pub struct Tag {
 }
 impl Evaluate for Tag {
     fn evaluate(&self, x: f64) -> f64 {
-        TAG_LOG.with(|l| l.borrow_mut().push((self.id, x.to_bits())));
+        // the returned value itself identifies (piece, argument); no side log (it would grow without bound in long runs)
         tagval(self.id, x)
     }
 }
